@@ -29,7 +29,7 @@ Inductive eop :=
     the harness; host_by_ip: flat (address, name) over the subnet, non-empty
     answers; ip_by_host: flat (name, address) over the first [nprobe] names. *)
 Inductive obs :=
-  | Ob (r : reply) (table host_by_ip ip_by_host : list N) (disk_is_memory : bool)
+  | Ob (r : reply) (table host_by_ip ip_by_host active_ips mac_by_ip : list N) (disk_is_memory : bool)
   | ObS (r : reply) (disk_is_memory : bool).  (* tables as in the previous step *)
 
 (** [busy]: the (encoded) addresses that answer the ICMP probe during the step. *)
@@ -112,25 +112,30 @@ Definition subnet_ips (c : conf) : list N :=
 
 (** The model's tables, encoded: (table rows, host_by_ip, ip_by_host). *)
 Definition model_tables (c : conf) (names : list bytes) (nprobe : nat) (now : Z) (s : state)
-  : list (list N) * list N * list N :=
+  : list (list N) * list N * list N * list N * list N :=
   (map (project c names now) (leases s),
    flat_map (fun ip => let h := host_by_ip s ip in
                        if is_nil h then [] else [enc_ip c ip; enc_host names h]) (subnet_ips c),
    flat_map (fun h => let ip := ip_by_host s h in
-                      if ip =? 0 then [] else [enc_host names h; enc_ip c ip]) (firstn nprobe names)).
+                      if ip =? 0 then [] else [enc_host names h; enc_ip c ip]) (firstn nprobe names),
+   map (fun l => enc_ip c (l_ip l)) (active now s),
+   flat_map (fun ip => let m := mac_by_ip now s ip in
+                       if m =? 0 then [] else [enc_ip c ip; m]) (subnet_ips c)).
 
 Definition disk_is_memory (s : state) : bool :=
   same_multiset eqb_entry (map file_entry (disk s)) (map file_entry (leases s)).
 
-Definition eqb_tables (seen : list N * list N * list N) (m : list (list N) * list N * list N) : bool :=
-  let '(t1, a1, b1) := seen in let '(t2, a2, b2) := m in
-  same_multiset (eqb_list N.eqb) (chunk4 t1) t2 && eqb_list N.eqb a1 a2 && eqb_list N.eqb b1 b2.
+Definition eqb_tables (seen : list N * list N * list N * list N * list N)
+    (m : list (list N) * list N * list N * list N * list N) : bool :=
+  let '(t1, a1, b1, g1, f1) := seen in let '(t2, a2, b2, g2, f2) := m in
+  same_multiset (eqb_list N.eqb) (chunk4 t1) t2 && eqb_list N.eqb a1 a2 && eqb_list N.eqb b1 b2
+  && same_multiset N.eqb g1 g2 && eqb_list N.eqb f1 f2.
 
 (** First step where model and implementation differ, with what the model
     computes there: (step index, reply, tables, disk_is_memory). *)
 Fixpoint first_bad (c : conf) (names : list bytes) (nprobe : nat) (t0 : Z) (i : N) (s : state)
-    (prev : list N * list N * list N) (steps : list stepobs)
-  : option (N * reply * (list (list N) * list N * list N) * bool) :=
+    (prev : list N * list N * list N * list N * list N) (steps : list stepobs)
+  : option (N * reply * (list (list N) * list N * list N * list N * list N) * bool) :=
   match steps with
   | [] => None
   | St dt busy o ob :: rest =>
@@ -143,7 +148,7 @@ Fixpoint first_bad (c : conf) (names : list bytes) (nprobe : nat) (t0 : Z) (i : 
         end in
       let m := model_tables c names nprobe now s' in
       let '(r1, seen, d1) :=
-        match ob with Ob r t a b d => (r, (t, a, b), d) | ObS r d => (r, prev, d) end in
+        match ob with Ob r t a b g f d => (r, (t, a, b, g, f), d) | ObS r d => (r, prev, d) end in
       if eqb_reply r1 (enc_reply c r) && eqb_tables seen m && Bool.eqb d1 (disk_is_memory s')
       then first_bad c' names nprobe t0 (i + 1) s' seen rest
       else Some (i, enc_reply c r, m, disk_is_memory s')
@@ -151,12 +156,12 @@ Fixpoint first_bad (c : conf) (names : list bytes) (nprobe : nat) (t0 : Z) (i : 
 
 Definition explain (k : case) :=
   match k with
-  | Case c names nprobe t0 steps => first_bad c names nprobe t0 0 empty_state ([], [], []) steps
+  | Case c names nprobe t0 steps => first_bad c names nprobe t0 0 empty_state ([], [], [], [], []) steps
   | ConfCase a b gw mask acc lo hi =>
       let c := conf_of a b gw mask 0 0 in
       if Bool.eqb acc (valid_conf_b c) && (negb acc || ((c_sub_lo c =? lo) && (c_sub_hi c =? hi)))
       then None
-      else Some (0, RApi (valid_conf_b c), ([], [c_sub_lo c; c_sub_hi c], []), false)
+      else Some (0, RApi (valid_conf_b c), ([], [c_sub_lo c; c_sub_hi c], [], [], []), false)
   end.
 
 Definition case_ok (k : case) : bool :=
